@@ -10,6 +10,12 @@ def has_fix():
     except Exception:
         return False
 
+def has_fix11():
+    try:
+        return 'Re-check now that the registration is visible' in open(os.path.join(REPO, 'thread', 'go.h')).read()
+    except Exception:
+        return False
+
 def parse_case(case):
     secs = case.split('|')
     hd = secs[0].split()
@@ -39,7 +45,7 @@ CLOSERS = ['C', 'Y C', 'Y Y C']
 class Check(DiffCheck):
     id = 'C09'
     coq_dirs = ['Base', 'C09', 'C04', 'Sched']
-    coq_targets = ['C09/C09_Proofs.vo', 'C09/C09_E2.vo']
+    coq_targets = ['C09/C09_Proofs.vo', 'C09/C09_E2.vo', 'C09/C09_E3.vo']
     needs_libphoton = True
     properties_v = 'C09/C09_Properties.v'
     extract_v = 'C09/C09_Extract.v'
@@ -54,22 +60,23 @@ class Check(DiffCheck):
     trusted_base = ['mutex/condition_variable/semaphore/MPMC ring used through their C01/C02/C03/C07 specifications in the fine-grained model']
 
     def build_impl(self):
-        self.fx = has_fix()
+        self.fx = has_fix(); self.fxb = has_fix11()
         exe, log = cxx_build(self.id, ['harness/C09/harness.cpp'], libphoton=True)
         if not exe: raise RuntimeError(log)
         return exe
 
     def tag(self, case):
-        # the model must follow the code under test: 'x' = repaired go.h
+        # the model must follow the code under test: 'Ux' = go.h with the F10 repair, 'Bx' = with the F11 repair
         if getattr(self, 'fx', None) is None: self.fx = has_fix()
-        if not self.fx: return case
+        if getattr(self, 'fxb', None) is None: self.fxb = has_fix11()
         hd, rest = case.split('|', 1)
         w = hd.split()
-        if not w[0].endswith('x'): w[0] += 'x'
+        base = w[0].rstrip('x')
+        w[0] = base + ('x' if ((base == 'U' and self.fx) or (base == 'B' and self.fxb)) else '')
         return ' '.join(w) + ' |' + rest
 
     def gen_cases(self, tier, rng):
-        self.fx = has_fix()
+        self.fx = has_fix(); self.fxb = has_fix11()
         cs = []
         cp = os.path.join(VERIF, 'replay', 'corpus', 'C09.cases')
         if os.path.exists(cp):
@@ -251,7 +258,7 @@ class Check(DiffCheck):
                     else: ops.append(rng.choice(['close 0', 'yield', 'send 0 %d' % d, 'recv 0 %d' % d]))
                 progs.append(';'.join(ops))
             main = ';'.join('create %d 0' % k for k in range(1, nt + 1))
-            out.append('P chan %d %d | %s | %s' % (cap, 1 if self.fx else 0, main, ' | '.join(progs)))
+            out.append('P chan %d %d | %s | %s' % (cap, 1 if (self.fx if cap == 0 else self.fxb) else 0, main, ' | '.join(progs)))
         # the F10 witness with timeouts, and a close during a hand-off
         out.insert(0, 'P chan 0 %d | create 1 0;create 2 0;create 3 0 | recv 0 -1 | send 0 500 | send 0 500' % (1 if self.fx else 0))
         out.insert(1, 'P chan 0 %d | create 1 0;create 2 0;create 3 0 | send 0 400 | usleep 100;recv 0 -1 | usleep 200;close 0' % (1 if self.fx else 0))
@@ -292,6 +299,82 @@ class Check(DiffCheck):
         if self.fx or decls[0][1][0] != 0: return None
         return 'F10' if sum(1 for th in threads for n, _ in th if n in ('send', 'try_send')) >= 2 else None
 
+    # ---- engine E3: the buffered path of the real go.h + real ring under the lock-step controller ---------
+    E3_WITNESSES = ['E 1 | S S | R | 0000000001100',      # F11 (a) sender asleep with a free slot
+                    'E 1 | R | S | 0011111100',           # F11 (b) receiver asleep with an item buffered
+                    'E 1 | R | C | 0011100']              # F11 (c) close() vs receiver registration
+
+    def gen_e3(self, rng, n):
+        cs = list(self.E3_WITNESSES)
+        for _ in range(n):
+            cap = rng.choice([1, 1, 2, 3])
+            k = rng.randint(2, 4)
+            scripts = []
+            for p in range(k):
+                role = rng.random()
+                pool = ['S', 'S', 's'] if role < 0.4 else (['R', 'R', 'r'] if role < 0.8 else ['S', 'R', 'C', 's', 'r'])
+                scripts.append(' '.join(rng.choice(pool) for _ in range(rng.randint(1, 3))))
+            L = rng.randint(0, 40)
+            ms = ''
+            while len(ms) < L: ms += str(rng.randrange(k)) * rng.randint(1, 6)
+            cs.append('E %d | %s | %s' % (cap, ' | '.join(scripts), ms[:L]))
+        if self.fxb: cs = ['Ex' + c[1:] for c in cs]
+        return cs
+
+    @staticmethod
+    def e3_lost_wakeup(case, line):
+        """the release clause on the implementation's outcome: a participant is still blocked when nobody else can
+        move, although a free slot / an item / close() exists"""
+        m = re.match(r'^res=(\S*) blocked=(\S+) q=(\d+) closed=(\d) ', line)
+        if not m or m.group(2) == '-': return None
+        secs = case.split('|'); cap = int(secs[0].split()[1]); scripts = [x.split() for x in secs[1:-1]]
+        res = m.group(1).split('|'); q = int(m.group(3)); closed = m.group(4) == '1'
+        for p in [int(x) for x in m.group(2).split(',')]:
+            done = len([x for x in res[p].split(',') if x != '']) if p < len(res) else 0
+            op = scripts[p][done] if done < len(scripts[p]) else '?'
+            if closed: return 'participant %d (%s) asleep on a closed channel' % (p, op)
+            if op == 'S' and q < cap: return 'sender %d asleep with a free slot (%d of %d used)' % (p, q, cap)
+            if op == 'R' and q > 0: return 'receiver %d asleep with %d item(s) buffered' % (p, q)
+        return None
+
+    def e3_step(self, ctx):
+        mexe, mlog = build_model_runner('C09e3', 'C09/C09_E3_Extract.v', 'ocaml/C09_e3_run.ml', 'C09_e3_model')
+        if not mexe:
+            return [dict(kind='proof', message='E3 model runner does not build: ' + mlog[-800:], case=None)], {}
+        iexe, ilog = cxx_build('C09e3', ['harness/C09/e3_chan.cpp'], libphoton=True)
+        if not iexe:
+            return [dict(kind='build', message='E3 harness for go.h does not build: ' + ilog[-1200:], case=None)], {}
+        cases = self.gen_e3(ctx['rng'], 1200 if ctx['tier'] == 'quick' else 30000)
+        mo = run_cases(mexe, cases, ctx['tmp'], 'e3model', timeout=600)
+        hc, exp = [], []
+        for c, o in zip(cases, mo):
+            o = (o or '').strip()
+            if ' ' not in o or o.startswith('BADCASE'):
+                return [dict(kind='correspondence', message='E3 model runner failed on a case: %s' % o[:200], case=c)], {}
+            sched, summ = o.split(' ', 1)
+            if sched == '-': sched = ''
+            secs = c.split('|')
+            hc.append('E %s %d |%s| %s' % (secs[0].split()[1], len(sched) + 10, '|'.join(secs[1:-1]), sched)); exp.append(summ)
+        io = run_cases(iexe, hc, ctx['tmp'], 'e3impl', timeout=1200, env=self.impl_env())
+        vio, agree, lost = [], 0, 0
+        for c, h, e, i in zip(cases, hc, exp, io):
+            i = (i or '').strip()
+            lw = self.e3_lost_wakeup(h, i)
+            if lw:
+                lost += 1
+                if self.fxb and not vio:
+                    vio.append(dict(kind='oracle', message='E3: ' + lw, case=h, model_out=e, impl_out=i))
+            if i != e and not vio:
+                vio.append(dict(kind='correspondence', message='E3 (buffered channel, atomic-step replay): model and implementation disagree',
+                                case=h, model_out=e, impl_out=i))
+            if i == e: agree += 1
+        if lost and not self.fxb:
+            print('KNOWN-FINDING: property=C09 F11 buffered channel: check-then-register lost wake-up across vCPUs reproduced on the real '
+                  'go.h under E3 in %d of %d schedules (incl. the 3 witnesses); repair delivered as repo_patches/C09-fix-buffered-lost-wakeup.diff' % (lost, len(cases)))
+        return vio, dict(e3_cases=len(cases), e3_outcomes_agreeing=agree, e3_lost_wakeups_on_impl=lost,
+                         e3_rule='3 F11 witnesses + random scripts (2-4 participants, capacities 1-3) x random bursty model-level schedules, '
+                                 'expanded by the model to atomic-step schedules of the real code')
+
     def extra(self, ctx):
         if not getattr(self, 'fx', has_fix()):
             print('KNOWN-FINDING: property=C09 F10 unbuffered channel: a second sender overwrites the hand-off slot '
@@ -324,7 +407,9 @@ class Check(DiffCheck):
             if m != i:
                 vio.append(dict(kind='correspondence', message='E2 (timed programs): model and implementation disagree', case=c, model_out=m, impl_out=i)); break
             agree += 1
-        self.extra_coverage = dict(e2_cases=len(cases), e2_traces_agreeing=agree, e2_skipped_watchdog=skipped,
+        e3v, e3cov = self.e3_step(ctx)
+        vio += e3v
+        self.extra_coverage = dict(e3=e3cov, e2_cases=len(cases), e2_traces_agreeing=agree, e2_skipped_watchdog=skipped,
                                    e2_rule='random timed programs (2-4 threads, capacities 0-3, Timeout in {never,0,100..500}, usleep, close) + F10 witness with timeouts')
         return vio
 
